@@ -35,3 +35,28 @@ B("c08-rule-starts-before-its-parameter", "C08", [sub("transfers/rente.py", '@po
 B("c08-new-argument-without-source", "C08", sub("transfers/kindergeld.py", "def kindergeld_ohne_staffelung_m(\n", "def kindergeld_ohne_staffelung_m(\n    kinderbonus_sonderzahlung_m_hh: float,\n"), "K2")
 B("c08-yaml-date-moved-later", "C08", sub("parameters/ges_rente.yaml", "  2017-01-01:\n    scalar: 0.4\n", "  2017-07-01:\n    scalar: 0.4\n"), "K3")
 T("c08-new-entry-repeating-all-keys", "C08", resub("parameters/kindergeld.yaml", r"(    note: Inflationsausgleichsgesetz\n    scalar: 250\n)", r"\1  2029-01-01:\n    scalar: 280\n"))
+
+# ------------------------------------------------------------------ C07
+B("c07-second-undecorated-implementation", "C07", append("transfers/kinderbonus.py", "def kindergeld_m(kindergeld_anz_ansprüche: int) -> float:\n    return 0.0\n"), "R1")
+B("c07-end-date-overlaps-successor", "C07", sub("transfers/kinderzuschl/kinderzuschl.py", 'end_date="2019-06-30",\n    name_in_dag="_kinderzuschl_vor_vermög_check_m_bg"', 'end_date="2019-07-01",\n    name_in_dag="_kinderzuschl_vor_vermög_check_m_bg"'), "R1")
+B("c07-function-defined-twice", "C07", append("transfers/kindergeld.py", "def kindergeld_anz_ansprüche(kindergeld_anspruch: bool) -> int:\n    return 1\n\n\ndef kindergeld_anz_ansprüche(kindergeld_anspruch: bool) -> int:\n    return 2\n"), "R")
+B("c07-unpadded-date-key", "C07", resub("parameters/kindergeld.yaml", r"\n  2023-01-01:\n", "\n  2023-1-01:\n", count=1), "Y1")
+B("c07-quoted-date-key", "C07", resub("parameters/kindergeld.yaml", r"\n  2023-01-01:\n", "\n  '2023-01-01':\n", count=1), "Y1")
+B("c07-param-selector-strict", "C07", sub("policy_environment.py", "past_policies = [d for d in policy_dates if d <= date]", "past_policies = [d for d in policy_dates if d < date]"), "O2")
+B("c07-rounding-selector-strict", "C07", sub("policy_environment.py", "if isinstance(key, datetime.date) and key <= date", "if isinstance(key, datetime.date) and key < date"), "O3")
+B("c07-rounding-picks-earliest", "C07", sub("policy_environment.py", "policy_date_in_place = numpy.max(policy_dates_before_date)", "policy_date_in_place = numpy.min(policy_dates_before_date)"), "O3")
+B("c07-activity-exclusive-end", "C07", sub("policy_environment.py", 'f.__info__["start_date"] <= date <= f.__info__["end_date"]', 'f.__info__["start_date"] <= date < f.__info__["end_date"]'), "O1")
+B("c07-conflict-test-one-sided", "C07", sub("shared.py", '            start <= f.__info__["start_date"] <= end\n            or f.__info__["start_date"] <= start <= f.__info__["end_date"]\n', '            start <= f.__info__["start_date"] <= end\n'), "O4")
+B("c07-deviation-target-missing", "C07", sub("parameters/arbeitsl_geld_2.yaml", "deviation_from: arbeitsl_geld_2.eink_anr_frei", "deviation_from: arbeitsl_geld_2.eink_anr_frei_neu", count=1), "Y")
+T("c07-activity-respelled", "C07", sub("policy_environment.py", 'return f.__info__["start_date"] <= date <= f.__info__["end_date"]', 'return not (date < f.__info__["start_date"] or date > f.__info__["end_date"])'))
+T("c07-selector-respelled", "C07", sub("policy_environment.py", "past_policies = [d for d in policy_dates if d <= date]", "past_policies = [d for d in policy_dates if not date < d]"))
+T("c07-new-dated-entry", "C07", resub("parameters/kindergeld.yaml", r"(    note: Inflationsausgleichsgesetz\n    scalar: 250\n)", r"\1  2029-03-01:\n    scalar: 280\n"))
+
+# ------------------------------------------------------------------ C13
+B("c13-wrong-week-constant", "C13", sub("time_conversion.py", "_W_PER_Y = 365.25 / 7", "_W_PER_Y = 365.25 / 12"), "Q1")
+B("c13-table-entry-swapped", "C13", sub("time_conversion.py", '"w_to_d": w_to_d,', '"w_to_d": d_to_w,'), "Q2")
+B("c13-converter-multiplies-both", "C13", sub("time_conversion.py", "return value * _M_PER_Y / _D_PER_Y", "return value * _M_PER_Y * _D_PER_Y"), "Q1")
+B("c13-lookup-key-reversed", "C13", sub("time_conversion.py", 'f"{time_unit}_to_{missing_time_unit}"', 'f"{missing_time_unit}_to_{time_unit}"'), "Q2")
+B("c13-independent-yearly-rule", "C13", append("transfers/kindergeld.py", "def kindergeld_y(kindergeld_anz_ansprüche: int, kindergeld_params: dict) -> float:\n    return 11.5 * kindergeld_anz_ansprüche\n"), "Q3")
+T("c13-converter-respelled", "C13", sub("time_conversion.py", "    return value / _M_PER_Y\n", "    return value * (1 / _M_PER_Y)\n"))
+T("c13-days-constant-respelled", "C13", sub("time_conversion.py", "_D_PER_Y = 365.25", "_D_PER_Y = 1461 / 4"))
